@@ -44,6 +44,7 @@ type StratSpec struct {
 	D      int     `json:"d,omitempty"`
 	Victim int     `json:"victim,omitempty"`
 	K      int     `json:"k,omitempty"`
+	Site   string  `json:"site,omitempty"`
 	Seed   uint64  `json:"seed"`
 }
 
@@ -60,6 +61,18 @@ func (s StratSpec) build() kernel.Strategy {
 		return kernel.Favour{R: r, Fav: s.Victim, K: s.K}
 	case "roundrobin":
 		return kernel.RoundRobin{}
+	case "teams":
+		return &kernel.Teams{R: r}
+	case "align":
+		var inner kernel.Strategy = kernel.Uniform{R: r}
+		if s.D == 1 {
+			inner = &kernel.Teams{R: r}
+		}
+		al := &kernel.Align{Inner: inner, Site: s.Site, N: s.K}
+		if s.D == 2 {
+			al.Leader = kernel.NewRand(s.Seed ^ 0x1eade2)
+		}
+		return al
 	}
 	return kernel.Uniform{R: r}
 }
@@ -180,8 +193,13 @@ func genTrigger(r *rand.Rand) Trigger {
 func genStrategy(r *rand.Rand, workers int) StratSpec {
 	s := StratSpec{Seed: r.Uint64()}
 	switch x := r.IntN(100); {
-	case x < 28:
+	case x < 14:
 		s.Kind = "uniform"
+	case x < 20:
+		// a barrier at a hook site: K actors are held there before any of them goes on (D = 1: released in teams)
+		s.Kind, s.Site, s.K, s.D = "align", pick(r, "worker.found", "worker.found", "worker.found", "worker.send", "worker.batch", "worker.exit"), pick(r, 2, 3, 3, workers), r.IntN(3)
+	case x < 28:
+		s.Kind = "teams"
 	case x < 46:
 		s.Kind, s.Q = "sticky", pick(r, 0.5, 0.8, 0.95)
 	case x < 66:
@@ -465,6 +483,7 @@ func GenC13(seed uint64, tier string) *Config {
 	c.Strat = genStrategy(r, c.Workers)
 	c.StepCap = 200 + r.IntN(1500)
 	stubMode := r.IntN(10) < 7
+	huddle := r.IntN(3) == 0
 	if stubMode {
 		c.Hash = "stub"
 		c.Stub = &StubPlan{Seed: r.Uint64(), DecoyPerMille: pick(r, 0, 0, 5, 30)}
@@ -496,6 +515,20 @@ func GenC13(seed uint64, tier string) *Config {
 		default:
 			c.TargetNote = "finds:" + plantFinds(r, c, good, 1+r.IntN(6))
 			c.MustFind = true
+		}
+		// the auto-instrumented flavours exist for windows between synchronisation operations; the ones worth most are
+		// in what several workers do when they find at the same time. A third of their stub runs are "huddles": 3..6
+		// workers, every one of them finds in the same early batch, a barrier holds them at worker.found until all (or
+		// three) have arrived, then one goes ahead alone and the others follow in random order.
+		if huddle && (Flavour == "auto" || Flavour == "autorace") {
+			c.Workers = 3 + r.IntN(4)
+			c.Stub.Specials, c.Stub.AllQualify, c.MustFind = nil, false, true
+			b := r.IntN(3)
+			for k := 0; k < c.Workers; k++ {
+				c.Stub.Specials = append(c.Stub.Specials, Special{workerStart(c.Workers, k) + uint64(64*b+r.IntN(64)), pick(r, good...)})
+			}
+			c.TargetNote = "finds:huddle"
+			c.Strat = StratSpec{Kind: "align", Site: "worker.found", K: pick(r, 3, c.Workers), D: pick(r, 2, 2, 1, 0), Seed: r.Uint64()}
 		}
 	} else {
 		c.Hash = "real"
